@@ -251,7 +251,7 @@ def render(d: Dtd) -> str:
         elif e.kind == "ANY":
             c = "ANY"
         elif e.kind == "PCDATA":
-            c = "(#PCDATA)"
+            c = "(#PCDATA)*" if sum(map(ord, e.name)) % 4 == 0 else "(#PCDATA)"  # both spellings mean text-only content
         elif e.kind == "MIXED":
             c = "(#PCDATA|" + "|".join(e.mixed_names) + ")*"
         else:
